@@ -322,6 +322,21 @@ func checkC12(c *Ctx, r *Report) {
 			if form != "" && in != "" && isStr {
 				got[form][in] = out
 			}
+			// the mapping may live in a table: `return simpleToolChoice(choice)` with a map[string]string behind it
+			if call, ok := res.(*ssa.Call); ok && form != "" {
+				if tab, def, okT := c.lookupHelper(call.Call.StaticCallee()); okT {
+					for k := range want {
+						if _, done := got[form][k]; done {
+							continue
+						}
+						if v, has := tab[k]; has {
+							got[form][k] = v
+						} else {
+							got[form][k] = def
+						}
+					}
+				}
+			}
 		}
 		for _, form := range []string{"string", "object"} {
 			for in, out := range want {
